@@ -2,6 +2,7 @@ package smt
 
 import (
 	"bufio"
+	"bytes"
 	"fmt"
 	"io"
 	"math/big"
@@ -36,8 +37,11 @@ type Stats struct {
 	Unsat    int
 	Unknown  int
 	Errors   int
-	Time     time.Duration
-	MaxQuery time.Duration
+	Time      time.Duration
+	MaxQuery  time.Duration
+	ModelTime time.Duration
+	Models    int
+	SecondOpinions int
 }
 
 func (s *Stats) Add(o Stats) {
@@ -47,6 +51,8 @@ func (s *Stats) Add(o Stats) {
 	s.Unknown += o.Unknown
 	s.Errors += o.Errors
 	s.Time += o.Time
+	s.ModelTime += o.ModelTime
+	s.Models += o.Models
 	if o.MaxQuery > s.MaxQuery {
 		s.MaxQuery = o.MaxQuery
 	}
@@ -66,6 +72,7 @@ type Solver struct {
 	Stats     Stats
 	Log       io.Writer // if non-nil, every command is copied here
 	LastError string
+	script    bytes.Buffer
 }
 
 // NewSolver starts bin (e.g. "z3", "-in"). timeoutMs applies per check-sat.
@@ -112,7 +119,50 @@ func (s *Solver) send(line string) {
 	if s.Log != nil {
 		io.WriteString(s.Log, line+"\n")
 	}
+	if !strings.HasPrefix(line, "(check-sat") && !strings.HasPrefix(line, "(echo") && !strings.HasPrefix(line, "(get-value") {
+		s.script.WriteString(line)
+		s.script.WriteByte('\n')
+	}
 	io.WriteString(s.in, line+"\n")
+}
+
+// CheckSecondOpinion re-decides the current assertion stack with another solver
+// binary (one-shot, from the recorded script). Used when the primary answers unknown.
+func (s *Solver) CheckSecondOpinion(timeoutSec int, bin ...string) Result {
+	f, err := os.CreateTemp("", "symgo-*.smt2")
+	if err != nil {
+		return Unknown
+	}
+	defer os.Remove(f.Name())
+	f.Write(s.script.Bytes())
+	f.WriteString("(check-sat)\n")
+	f.Close()
+	args := append(bin[1:], f.Name())
+	cmd := exec.Command(bin[0], args...)
+	done := make(chan struct{})
+	var out []byte
+	go func() { out, _ = cmd.Output(); close(done) }()
+	select {
+	case <-done:
+	case <-time.After(time.Duration(timeoutSec) * time.Second):
+		if cmd.Process != nil {
+			cmd.Process.Kill()
+		}
+		<-done
+		return Unknown
+	}
+	s.Stats.SecondOpinions++
+	lines := strings.Split(strings.TrimSpace(string(out)), "\n")
+	if strings.Contains(string(out), "(error") {
+		return Unknown
+	}
+	switch strings.TrimSpace(lines[len(lines)-1]) {
+	case "sat":
+		return Sat
+	case "unsat":
+		return Unsat
+	}
+	return Unknown
 }
 
 // readSexp reads one complete s-expression or atom line from the solver.
@@ -172,6 +222,7 @@ func (s *Solver) Reset(ctx *Ctx) {
 	s.declared = map[string]bool{}
 	s.defined = map[int]bool{}
 	s.depth = 0
+	s.script.Reset()
 	s.send("(reset)")
 	s.send("(set-option :global-decls true)")
 	s.send("(set-option :print-success false)")
@@ -180,6 +231,9 @@ func (s *Solver) Reset(ctx *Ctx) {
 	}
 	s.send("(declare-sort Str 0)")
 }
+
+// Raw sends a command that produces no output.
+func (s *Solver) Raw(cmd string) { s.send(cmd) }
 
 func (s *Solver) Push() { s.depth++; s.send("(push 1)") }
 func (s *Solver) Pop()  { s.depth--; s.send("(pop 1)") }
@@ -323,6 +377,8 @@ func (v Val) String() string {
 
 // GetValues must be called right after a Check that returned Sat (in the same scope).
 func (s *Solver) GetValues(ts []*Term) (map[*Term]Val, error) {
+	t0 := time.Now()
+	defer func() { s.Stats.ModelTime += time.Since(t0); s.Stats.Models++ }()
 	out := map[*Term]Val{}
 	const chunk = 200
 	for i := 0; i < len(ts); i += chunk {
